@@ -187,7 +187,7 @@ package db
 //@   ensures [absent] err == nil && TFIRST() == p_hi(pg(l)) ==> !done && !halt && pos == old(pos)
 //@   loop 1 invariant 0 <= $i && $i <= len(l.cells) && n + $i <= len(l.cells) && pos == TFIRST() && !halt
 //@   loop 1 invariant ule(c_lo(l, n + $i), TFIRST()) && ($i > 0 ==> TFIRST() == c_lo(l, n + $i))
-//@   loop 1 invariant $i == 0 && n < len(l.cells) ==> ule(TFIRST(), c_lo(l, n + 1))
+//@   loop 1 invariant n + $i < len(l.cells) ==> ule(TFIRST(), p_hi(l.cells[n + $i].left))
 //@   loop 1 exit n + $i == len(l.cells)
 //@   loop 1 decreases len(l.cells) - n - $i
 
